@@ -465,6 +465,8 @@ def triage(prop_id, mod, totals):
 
 def write_replay(prop_id, f):
     d = os.path.join(VERIF, "replays", prop_id)
+    if os.environ.get("VERIF_NO_EVIDENCE"):
+        d = os.path.join(os.environ.get("PYTTB_SRC", "/tmp"), "replays", prop_id)
     os.makedirs(d, exist_ok=True)
     body = {"property": prop_id, "check": f["check"], "op": f["op"],
             "variant": f.get("variant", ""), "symptom": f["symptom"],
@@ -483,6 +485,8 @@ def write_replay(prop_id, f):
 
 def write_evidence(mod, tier, seed, totals, wall, n_viol, known_matched, extra=None):
     path = os.path.join(VERIF, "evidence", f"{mod.ID}.json")
+    if os.environ.get("VERIF_NO_EVIDENCE"):  # mutation demos run against a scratch copy
+        path = os.path.join(os.environ.get("PYTTB_SRC", "/tmp"), f"evidence_{mod.ID}.json")
     os.makedirs(os.path.dirname(path), exist_ok=True)
     exhaustive = not totals.caps_hit
     cov = {
